@@ -1,6 +1,6 @@
 (* Proofs about Model/Stub.v: C15 (subscription, rejection, dispatch) and C16 (life cycle). *)
 From Coq Require Import String Ascii List Bool ZArith NArith Arith Lia Permutation.
-From NRI Require Import Base.Strs Base.Assoc Model.Consts Model.Event Model.StubConsts Model.Stub.
+From NRI Require Import Base.Strs Base.Assoc Model.Consts Model.Event Model.StubConsts Model.Stub Spec.StubSpec.
 Import ListNotations.
 Open Scope string_scope.
 Open Scope list_scope.
@@ -75,8 +75,9 @@ Proof.
   apply in_seq. lia.
 Qed.
 
-(* stated without the [let] of all_subscriptions_exact: the kernel's conversion on the let-form
-   does not terminate in reasonable time at Qed of the lemmas that use it *)
+(* Stated in the unfolded [forallb f l] form on purpose: every later use must match these statements
+   syntactically.  If the unifier or the kernel has to convert between a folded and an unfolded form of a
+   [forallb] over the 8192-element list it starts unrolling the list and does not come back. *)
 Lemma all_plugins_subscription :
   forallb (subscription_exact_t handler_events) (plugins_upto num_plugins) = true.
 Proof. vm_compute. reflexivity. Qed.
@@ -87,46 +88,125 @@ Proof. vm_compute. reflexivity. Qed.
 Lemma forallb_in {A} (f : A -> bool) l : forallb f l = true -> forall x, In x l -> f x = true.
 Proof. intros H. apply forallb_forall. exact H. Qed.
 
+(* interface lemmas: the statements have the final shape, nothing is unfolded in a hypothesis *)
 Lemma subscription_exact_p p : (p < num_plugins)%N -> subscription_exact_t handler_events p = true.
-Proof. intros Hp. exact (forallb_in _ _ all_plugins_subscription p (in_plugins_upto _ _ Hp)). Qed.
+Proof.
+  intros Hp.
+  exact (forallb_in (subscription_exact_t handler_events) (plugins_upto num_plugins)
+                    all_plugins_subscription p (in_plugins_upto num_plugins p Hp)).
+Qed.
+
+Lemma subscription_exact_t_elim he p :
+  subscription_exact_t he p = true -> forall e, In e event_bits -> sub_ok he (stub_events p) p e = true.
+Proof. unfold subscription_exact_t. intros H. apply forallb_forall. exact H. Qed.
+
+Lemma sub_ok_p p e :
+  (p < num_plugins)%N -> (1 <= e <= 31)%Z -> sub_ok handler_events (stub_events p) p e = true.
+Proof.
+  intros Hp He.
+  exact (subscription_exact_t_elim handler_events p (subscription_exact_p p Hp) e (in_event_bits e He)).
+Qed.
 
 Lemma handlers_exact_p p : (p < num_plugins)%N -> handlers_exact p = true.
-Proof. intros Hp. exact (forallb_in _ _ all_plugins_handlers p (in_plugins_upto _ _ Hp)). Qed.
+Proof.
+  intros Hp.
+  exact (forallb_in handlers_exact (plugins_upto num_plugins) all_plugins_handlers p
+                    (in_plugins_upto num_plugins p Hp)).
+Qed.
+
+Lemma in_all_handlers h : In h all_handlers.
+Proof. destruct h; simpl; tauto. Qed.
+
+Lemma handlers_exact_elim p :
+  handlers_exact p = true -> forall h, handler_ok (stub_handlers p) p h = true.
+Proof.
+  unfold handlers_exact. intros H h.
+  exact (forallb_in (handler_ok (stub_handlers p) p) all_handlers H h (in_all_handlers h)).
+Qed.
+
+Lemma handler_ok_p p h : (p < num_plugins)%N -> handler_ok (stub_handlers p) p h = true.
+Proof. intros Hp. exact (handlers_exact_elim p (handlers_exact_p p Hp) h). Qed.
 
 (* all thirteen events are distinct and valid (regenerated numbers) *)
 Lemma proto_events_valid : forallb (fun h => (1 <=? proto_event h)%Z && (proto_event h <=? 13)%Z && is_set valid_events (proto_event h)) all_handlers = true.
 Proof. vm_compute. reflexivity. Qed.
 
-Lemma in_all_handlers h : In h all_handlers.
-Proof. destruct h; simpl; tauto. Qed.
+(* what sub_ok says, for an arbitrary mask ev and an arbitrary handler/event table *)
+Lemma sub_ok_spec (he : list (handler * Z)) (ev : Z) p e :
+  sub_ok he ev p e = true ->
+  (is_set ev e = true <-> exists x, In x he /\ implements p (fst x) = true /\ snd x = e).
+Proof.
+  unfold sub_ok. intros A. apply eqb_prop in A. rewrite A. split.
+  - intros H. apply existsb_exists in H. destruct H as [x [Hx Hh]].
+    apply andb_true_iff in Hh. destruct Hh as [Hi Hq]. apply Z.eqb_eq in Hq.
+    exists x. split; [exact Hx|]. split; [exact Hi|exact Hq].
+  - intros [x [Hx [Hi Hq]]]. apply existsb_exists. exists x. split; [exact Hx|].
+    rewrite Hi, Hq, Z.eqb_refl. reflexivity.
+Qed.
+
+Lemma in_handler_events x : In x handler_events <-> snd x = proto_event (fst x).
+Proof.
+  unfold handler_events. rewrite in_map_iff. split.
+  - intros [h [<- _]]. reflexivity.
+  - intros H. exists (fst x). split; [|apply in_all_handlers]. destruct x as [h z]. cbn [fst snd] in *. congruence.
+Qed.
 
 (* the stub's mask: exactly the events of the handlers the plugin implements *)
 Lemma implemented_exact p e :
   (p < num_plugins)%N -> (1 <= e <= 31)%Z ->
   implemented p e = true <-> exists h, implements p h = true /\ proto_event h = e.
 Proof.
-  intros Hp He. pose proof (subscription_exact_p p Hp) as A. unfold subscription_exact_t in A.
-  pose proof (forallb_in _ _ A e (in_event_bits _ He)) as A'. clear A. rename A' into A. cbv beta in A.
-  apply eqb_prop in A. unfold implemented. rewrite A. rewrite existsb_exists. split.
-  - intros [x [Hx Hh]]. unfold handler_events in Hx. apply in_map_iff in Hx. destruct Hx as [h [<- _]].
-    cbn [fst snd] in Hh. apply andb_true_iff in Hh. destruct Hh as [Hi Hq]. apply Z.eqb_eq in Hq. eauto.
-  - intros [h [Hi Hq]]. exists (h, proto_event h). split.
-    + unfold handler_events. apply (in_map (fun h0 => (h0, proto_event h0))). apply in_all_handlers.
-    + cbn [fst snd]. rewrite Hi, Hq, Z.eqb_refl. reflexivity.
+  intros Hp He.
+  pose proof (sub_ok_spec handler_events (stub_events p) p e (sub_ok_p p e Hp He)) as S.
+  change (implemented p e) with (is_set (stub_events p) e).
+  split.
+  - intros H. apply S in H. destruct H as [x [Hx [Hi Hq]]]. apply in_handler_events in Hx.
+    exists (fst x). split; [exact Hi|]. congruence.
+  - intros [h [Hi Hq]]. apply S. exists (h, proto_event h). split; [apply in_handler_events; reflexivity|].
+    split; [exact Hi|exact Hq].
+Qed.
+
+Lemma handler_ok_spec (hs : list (string * string)) p h :
+  handler_ok hs p h = true ->
+  alookup (method_of h) hs = if implements p h then Some (method_of h) else None.
+Proof.
+  unfold handler_ok. intros A.
+  destruct (alookup (method_of h) hs) as [m|].
+  - apply andb_true_iff in A. destruct A as [Hi Hm]. apply String.eqb_eq in Hm. rewrite Hi, Hm. reflexivity.
+  - apply negb_true_iff in A. rewrite A. reflexivity.
 Qed.
 
 Lemma stub_handlers_exact p h :
   (p < num_plugins)%N ->
   alookup (method_of h) (stub_handlers p) = if implements p h then Some (method_of h) else None.
-Proof.
-  intros Hp. pose proof (handlers_exact_p p Hp) as A0. unfold handlers_exact in A0.
-  pose proof (forallb_in _ _ A0 h (in_all_handlers h)) as A. clear A0. cbv beta in A.
-  destruct (alookup (method_of h) (stub_handlers p)) as [m|].
-  - apply andb_true_iff in A. destruct A as [Hi Hm]. apply String.eqb_eq in Hm. rewrite Hi, Hm. reflexivity.
-  - apply negb_true_iff in A. rewrite A. reflexivity.
-Qed.
+Proof. intros Hp. exact (handler_ok_spec (stub_handlers p) p h (handler_ok_p p h Hp)). Qed.
 
 (* ---- C15_subscription -------------------------------------------------- *)
+
+(* the clamping, for an arbitrary stub mask ev *)
+Lemma configure_with_subscription ev hook m :
+  configure_with ev hook = COk m ->
+  (forall e, (1 <= e)%Z -> is_set m e = true -> is_set ev e = true) /\
+  match hook with
+  | NoHook => m = ev
+  | HookFails => False
+  | HookMask r => (r = 0%Z -> m = ev) /\ (r <> 0%Z -> m = r)
+  end.
+Proof.
+  unfold configure_with. rewrite zero_default_on, rejects_extra_on. cbn [andb].
+  destruct hook as [| |r].
+  - intros E. inversion E. subst m. split; [|reflexivity]. intros e _ H. exact H.
+  - discriminate.
+  - destruct (Z.eqb_spec r 0) as [->|Hr].
+    + destruct (Z.eqb_spec (Z.land ev (Z.lnot ev)) 0) as [E0|E0]; cbn [negb].
+      * intros E. inversion E. subst m. split; [intros e _ H; exact H|]. split; [reflexivity|congruence].
+      * discriminate.
+    + destruct (Z.eqb_spec (Z.land r (Z.lnot ev)) 0) as [E0|E0]; cbn [negb].
+      * intros E. inversion E. subst m. split.
+        -- intros e He H. exact (no_extra_subset r ev e E0 He H).
+        -- split; [congruence|reflexivity].
+      * discriminate.
+Qed.
 
 Lemma configure_subscription p hook m :
   configure p hook = COk m ->
@@ -136,32 +216,44 @@ Lemma configure_subscription p hook m :
   | HookFails => False
   | HookMask r => (r = 0%Z -> m = stub_events p) /\ (r <> 0%Z -> m = r)
   end.
+Proof. exact (configure_with_subscription (stub_events p) hook m). Qed.
+
+(* a plugin that asks for nothing in particular, or for a subset, is never refused *)
+Lemma configure_with_accepts ev r :
+  (forall e, (1 <= e <= 31)%Z -> is_set r e = true -> is_set ev e = true) ->
+  (0 <= r < 2 ^ 31)%Z -> (0 <= ev)%Z ->
+  configure_with ev (HookMask r) = COk (if (r =? 0)%Z then ev else r).
 Proof.
-  unfold configure. rewrite zero_default_on, rejects_extra_on. cbn [andb].
-  destruct hook as [| |r].
-  - intros E. inversion E. subst m. split; [|reflexivity]. intros e _ H. exact H.
-  - discriminate.
-  - destruct (Z.eqb_spec r 0) as [->|Hr].
-    + destruct (Z.eqb_spec (Z.land (stub_events p) (Z.lnot (stub_events p))) 0) as [E0|E0]; cbn [negb].
-      * intros E. inversion E. subst m. split; [intros e _ H; exact H|]. split; [reflexivity|congruence].
-      * discriminate.
-    + destruct (Z.eqb_spec (Z.land r (Z.lnot (stub_events p))) 0) as [E0|E0]; cbn [negb].
-      * intros E. inversion E. subst m. split.
-        -- intros e He H. unfold implemented. eapply no_extra_subset; eauto.
-        -- split; [congruence|reflexivity].
-      * discriminate.
+  intros Hsub Hr Hev. unfold configure_with. rewrite zero_default_on, rejects_extra_on. cbn [andb].
+  assert (forall x, (0 <= x)%Z -> (x = ev \/ x = r) -> Z.land x (Z.lnot ev) = 0%Z) as Z0.
+  { intros x Hx Hor. apply Z.bits_inj'. intros n Hn. rewrite Z.land_spec, Z.lnot_spec, Z.bits_0 by exact Hn.
+    destruct (Z.testbit x n) eqn:Tx; [|reflexivity]. cbn [andb].
+    destruct Hor as [->| ->]; [rewrite Tx; reflexivity|].
+    destruct (Z_lt_le_dec n 31) as [Hlt|Hge].
+    - specialize (Hsub (n + 1)%Z ltac:(lia)). rewrite !is_set_testbit in Hsub by lia.
+      replace (n + 1 - 1)%Z with n in Hsub by lia. rewrite (Hsub Tx). reflexivity.
+    - exfalso. assert (Z.testbit r n = false) as F; [|congruence].
+      destruct (Z.eqb_spec r 0) as [->|Hnz]; [apply Z.bits_0|].
+      apply Z.bits_above_log2; [lia|]. assert (Z.log2 r < 31)%Z by (apply Z.log2_lt_pow2; lia). lia. }
+  destruct (Z.eqb_spec r 0) as [->|Hnz].
+  - rewrite (Z0 ev Hev (or_introl eq_refl)). reflexivity.
+  - rewrite (Z0 r ltac:(lia) (or_intror eq_refl)). reflexivity.
 Qed.
 
 (* ---- C15_reject_unhandled ---------------------------------------------- *)
 
+Lemma configure_with_rejects ev r e :
+  (1 <= e)%Z -> is_set r e = true -> is_set ev e = false -> configure_with ev (HookMask r) = CErrUnhandled.
+Proof.
+  intros He Hr Hi. unfold configure_with. rewrite zero_default_on, rejects_extra_on. cbn [andb].
+  destruct (Z.eqb_spec r 0) as [->|Hn]; [rewrite is_set_zero in Hr; discriminate|].
+  pose proof (extra_bit_nonzero r ev e He Hr Hi) as X.
+  destruct (Z.eqb_spec (Z.land r (Z.lnot ev)) 0); [contradiction|reflexivity].
+Qed.
+
 Lemma configure_rejects p r e :
   (1 <= e)%Z -> is_set r e = true -> implemented p e = false -> configure p (HookMask r) = CErrUnhandled.
-Proof.
-  intros He Hr Hi. unfold configure. rewrite zero_default_on, rejects_extra_on. cbn [andb].
-  destruct (Z.eqb_spec r 0) as [->|Hn]; [rewrite is_set_zero in Hr; discriminate|].
-  pose proof (extra_bit_nonzero r (stub_events p) e He Hr Hi) as X.
-  destruct (Z.eqb_spec (Z.land r (Z.lnot (stub_events p))) 0); [contradiction|reflexivity].
-Qed.
+Proof. exact (configure_with_rejects (stub_events p) r e). Qed.
 
 (* a subscribed event always has a handler (composition with the runtime's is_set test, C06) *)
 Lemma subscribed_has_handler p hook m e :
@@ -169,7 +261,7 @@ Lemma subscribed_has_handler p hook m e :
   exists h, implements p h = true /\ proto_event h = e.
 Proof.
   intros Hp He Hc Hs. apply configure_subscription in Hc. destruct Hc as [Hsub _].
-  apply implemented_exact; [exact Hp|exact He|]. apply Hsub; [lia|exact Hs].
+  apply (implemented_exact p e Hp He). apply Hsub; [lia|exact Hs].
 Qed.
 
 (* ---- C15_dispatch_exact ------------------------------------------------ *)
@@ -186,40 +278,9 @@ Lemma setup_bits_exact :
                     end) all_handlers = true.
 Proof. vm_compute. reflexivity. Qed.
 
-Definition deliver_with (hs : list (string * string)) (c : carrier) (m : message) (beh : string -> hresult)
-  : list invocation * reply :=
-  match c with
-  | ByRPC name =>
-      match find_rpc name with
-      | None => ([], no_reply)
-      | Some (_, fld, args, _, resp) =>
-          match alookup fld hs with
-          | None => ([], no_reply)
-          | Some meth => ([(meth, map (field m) args)], relay_rpc resp (beh meth))
-          end
-      end
-  | ByStateChange =>
-      match zlookup (m_event m) statechange_table with
-      | None => ([], no_reply)
-      | Some calls =>
-          let '(inv, err) := run_calls hs m beh calls [] "" in
-          (inv, if String.eqb err "" then no_reply else RErr err)
-      end
-  end.
-
-Lemma deliver_is_with p c m beh : deliver p c m beh = deliver_with (stub_handlers p) c m beh.
-Proof. reflexivity. Qed.
-
-Definition expected_with (b : bool) (h : handler) (m : message) (beh : string -> hresult)
-  : list invocation * reply :=
-  if b then
-    let r := beh (method_of h) in
-    ([(method_of h, map (field m) (proto_args h))],
-     if String.eqb (r_error r) "" then
-       ROk (if proto_returns_adjust h then r_adjust r else "") (if proto_returns_update h then r_update r else "")
-     else RErr (r_error r))
-  else ([], no_reply).
-
+(* for an arbitrary handler table hs that binds h's field as the plugin type demands:
+   13-way case analysis on the regenerated dispatch tables; message fields and handler
+   behaviour stay universally quantified *)
 Lemma deliver_with_exact hs (b : bool) h fields beh :
   alookup (method_of h) hs = (if b then Some (method_of h) else None) ->
   deliver_with hs (carrier_of h) {| m_event := proto_event h; m_fields := fields |} beh
@@ -227,6 +288,7 @@ Lemma deliver_with_exact hs (b : bool) h fields beh :
 Proof.
   intros H.
   destruct h; cbn in H |- *; rewrite H; destruct b; cbn; try reflexivity;
+    unfold relay_rpc, resp_has; cbn;
     match goal with |- context [String.eqb (r_error ?r) ""] => destruct (String.eqb (r_error r) "") end;
     reflexivity.
 Qed.
@@ -236,17 +298,153 @@ Lemma deliver_exact p h fields beh :
   deliver p (carrier_of h) {| m_event := proto_event h; m_fields := fields |} beh
   = expected_delivery p h {| m_event := proto_event h; m_fields := fields |} beh.
 Proof.
-  intros Hp. rewrite deliver_is_with.
-  rewrite (deliver_with_exact (stub_handlers p) (implements p h) h fields beh (stub_handlers_exact p h Hp)).
-  reflexivity.
+  intros Hp.
+  exact (deliver_with_exact (stub_handlers p) (implements p h) h fields beh (stub_handlers_exact p h Hp)).
 Qed.
 
 (* exactly once: one invocation when implemented, none otherwise *)
+Lemma expected_with_once b h m beh : length (fst (expected_with b h m beh)) = if b then 1%nat else 0%nat.
+Proof. destruct b; reflexivity. Qed.
+
 Lemma deliver_once p h fields beh :
   (p < num_plugins)%N ->
   length (fst (deliver p (carrier_of h) {| m_event := proto_event h; m_fields := fields |} beh))
-  = if implements p h then 1 else 0.
+  = if implements p h then 1%nat else 0%nat.
 Proof.
-  intros Hp. rewrite deliver_exact by exact Hp. unfold expected_delivery.
-  destruct (implements p h); reflexivity.
+  intros Hp. rewrite (deliver_exact p h fields beh Hp).
+  exact (expected_with_once (implements p h) h _ beh).
 Qed.
+
+(* ---- the executable predicates of Spec/StubSpec.v hold of the model ------ *)
+
+(* setupHandlers computes the reference mask, for every plugin type (complete sweep) *)
+Lemma all_plugins_ref_mask :
+  forallb (fun p => (stub_events p =? ref_mask p)%Z && Bool.eqb (new_ok p) (ref_new_ok p))
+          (plugins_upto num_plugins) = true.
+Proof. vm_compute. reflexivity. Qed.
+
+Lemma stub_events_ref p : (p < num_plugins)%N -> stub_events p = ref_mask p /\ new_ok p = ref_new_ok p.
+Proof.
+  intros Hp.
+  pose proof (forallb_in (fun p => (stub_events p =? ref_mask p)%Z && Bool.eqb (new_ok p) (ref_new_ok p))
+                         (plugins_upto num_plugins) all_plugins_ref_mask p (in_plugins_upto num_plugins p Hp)) as A.
+  cbv beta in A. apply andb_true_iff in A. destruct A as [A B].
+  split; [apply Z.eqb_eq; exact A|apply eqb_prop; exact B].
+Qed.
+
+Lemma holds_cfg_m_configure ev hook : holds_cfg_m ev hook (configure_with ev hook) = true.
+Proof.
+  unfold holds_cfg_m, configure_with, subset_of. rewrite zero_default_on, rejects_extra_on. cbn [andb].
+  destruct hook as [| |r]; [apply Z.eqb_refl|reflexivity|].
+  destruct (Z.eqb_spec r 0) as [->|Hr].
+  - destruct (Z.eqb_spec (Z.land ev (Z.lnot ev)) 0) as [E0|E0]; cbn [negb].
+    + assert (Z.land 0 (Z.lnot ev) = 0%Z) as -> by apply Z.land_0_l. cbn. apply Z.eqb_refl.
+    + exfalso. apply E0. apply Z.bits_inj'. intros n Hn.
+      rewrite Z.land_spec, Z.lnot_spec, Z.bits_0 by exact Hn. apply andb_negb_r.
+  - destruct (Z.eqb_spec (Z.land r (Z.lnot ev)) 0) as [E0|E0]; cbn [negb andb]; [apply Z.eqb_refl|reflexivity].
+Qed.
+
+Lemma holds_cfg_configure p hook : (p < num_plugins)%N -> holds_cfg p hook (configure p hook) = true.
+Proof.
+  intros Hp. unfold holds_cfg, configure. destruct (stub_events_ref p Hp) as [<- _].
+  exact (holds_cfg_m_configure (stub_events p) hook).
+Qed.
+
+(* ---- dispatch of an arbitrary message ------------------------------------ *)
+
+Lemma carrier_eqb_true a b : carrier_eqb a b = true -> a = b.
+Proof. destruct a, b; cbn; try discriminate; [|reflexivity]. intros H. apply String.eqb_eq in H. congruence. Qed.
+
+Lemma carrier_eqb_refl a : carrier_eqb a a = true.
+Proof. destruct a; cbn; [apply String.eqb_refl|reflexivity]. Qed.
+
+Lemma zlookup_some_in {V} k (l : list (Z * V)) v : zlookup k l = Some v -> In k (map fst l).
+Proof.
+  induction l as [|[k' v'] r IH]; cbn [zlookup map fst]; [discriminate|].
+  destruct (Z.eqb_spec k k') as [->|Hne]; [intros _; left; reflexivity|intros H; right; exact (IH H)].
+Qed.
+
+(* every RPC / StateChange case of the regenerated tables belongs to a handler of the protocol *)
+Lemma rpc_rows_have_handlers :
+  forallb (fun r => existsb (fun h => carrier_eqb (carrier_of h) (ByRPC (fst (fst (fst (fst r)))))) all_handlers)
+          rpc_table = true.
+Proof. vm_compute. reflexivity. Qed.
+
+Lemma statechange_keys_have_handlers :
+  forallb (fun k => existsb (fun h => carrier_eqb (carrier_of h) ByStateChange && (proto_event h =? k)%Z) all_handlers)
+          (map fst statechange_table) = true.
+Proof. vm_compute. reflexivity. Qed.
+
+Lemma handler_for_own h : handler_for (carrier_of h) (proto_event h) = Some h.
+Proof. destruct h; vm_compute; reflexivity. Qed.
+
+Lemma handler_for_sound c ev h :
+  handler_for c ev = Some h -> carrier_of h = c /\ (c = ByStateChange -> proto_event h = ev).
+Proof.
+  unfold handler_for. intros F. apply find_some in F. destruct F as [_ F].
+  apply andb_true_iff in F. destruct F as [Fc Fe]. apply carrier_eqb_true in Fc. split; [exact Fc|].
+  intros ->. apply Z.eqb_eq. exact Fe.
+Qed.
+
+Lemma handler_for_none_rpc name ev : handler_for (ByRPC name) ev = None -> find_rpc name = None.
+Proof.
+  intros F. destruct (find_rpc name) as [r|] eqn:R; [exfalso|reflexivity].
+  unfold find_rpc in R. apply find_some in R. destruct R as [Rin Req]. apply String.eqb_eq in Req.
+  pose proof (forallb_in _ _ rpc_rows_have_handlers r Rin) as X. cbv beta in X.
+  apply existsb_exists in X. destruct X as [h [_ Hc]]. rewrite Req in Hc.
+  unfold handler_for in F. pose proof (find_none _ _ F h (in_all_handlers h)) as N. cbv beta in N.
+  rewrite Hc in N. discriminate.
+Qed.
+
+Lemma handler_for_none_sc ev : handler_for ByStateChange ev = None -> zlookup ev statechange_table = None.
+Proof.
+  intros F. destruct (zlookup ev statechange_table) as [calls|] eqn:R; [exfalso|reflexivity].
+  apply zlookup_some_in in R.
+  pose proof (forallb_in _ _ statechange_keys_have_handlers ev R) as X. cbv beta in X.
+  apply existsb_exists in X. destruct X as [h [_ Hc]].
+  unfold handler_for in F. pose proof (find_none _ _ F h (in_all_handlers h)) as N. cbv beta in N.
+  rewrite Hc in N. discriminate.
+Qed.
+
+(* for an arbitrary handler table that binds every field as the plugin type demands *)
+Lemma deliver_with_total hs (impl : handler -> bool) c m beh :
+  (forall h, alookup (method_of h) hs = if impl h then Some (method_of h) else None) ->
+  deliver_with hs c m beh
+  = match handler_for c (m_event m) with
+    | Some h => expected_with (impl h) h m beh
+    | None => ([], no_reply)
+    end.
+Proof.
+  intros Hhs. destruct m as [ev fields]. cbn [m_event].
+  destruct (handler_for c ev) as [h|] eqn:F.
+  - apply handler_for_sound in F. destruct F as [<- Fe].
+    pose proof (deliver_with_exact hs (impl h) h fields beh (Hhs h)) as D.
+    destruct h; try (rewrite <- (Fe eq_refl); exact D); exact D.
+  - destruct c as [name|].
+    + apply handler_for_none_rpc in F. unfold deliver_with. rewrite F. reflexivity.
+    + apply handler_for_none_sc in F. unfold deliver_with. cbn [m_event]. rewrite F. reflexivity.
+Qed.
+
+Lemma deliver_total p c m beh : (p < num_plugins)%N -> deliver p c m beh = expected_msg p c m beh.
+Proof.
+  intros Hp.
+  exact (deliver_with_total (stub_handlers p) (implements p) c m beh (fun h => stub_handlers_exact p h Hp)).
+Qed.
+
+Lemma sl_eqb_refl l : sl_eqb l l = true.
+Proof. induction l as [|x r IH]; [reflexivity|]. cbn. rewrite String.eqb_refl. exact IH. Qed.
+
+Lemma invocations_eqb_refl l : invocations_eqb l l = true.
+Proof.
+  induction l as [|[a b] r IH]; [reflexivity|]. cbn [invocations_eqb]. unfold invocation_eqb. cbn [fst snd].
+  rewrite String.eqb_refl, sl_eqb_refl. exact IH.
+Qed.
+
+Lemma delivery_eqb_refl x : delivery_eqb x x = true.
+Proof.
+  destruct x as [i r]. unfold delivery_eqb. cbn [fst snd]. rewrite invocations_eqb_refl.
+  destruct r; cbn; rewrite ?String.eqb_refl; reflexivity.
+Qed.
+
+Lemma holds_disp_deliver p c m beh : (p < num_plugins)%N -> holds_disp p c m beh (deliver p c m beh) = true.
+Proof. intros Hp. unfold holds_disp. rewrite (deliver_total p c m beh Hp). apply delivery_eqb_refl. Qed.
